@@ -60,7 +60,7 @@ META = {
     "technique": "format/axis typing of guarded arms + pointer-window dataflow + linear-form identities on extracted "
                  "formulas + small symbolic executors for the run-length pair",
 }
-MIN_INSTANCES = {"R1": 26, "R2": 10, "R3": 6, "R4": 5, "R5": 1, "R6": 9, "R7": 1, "R8": 1, "R9": 6, "R10": 2}
+MIN_INSTANCES = {"R1": 26, "R2": 10, "R3": 6, "R4": 5, "R5": 1, "R6": 9, "R7": 1, "R8": 1, "R9": 6, "R10": 3}
 
 FMT = {"csr": {"line": 0, "idx": 1}, "csc": {"line": 1, "idx": 0}}
 OTHER = {"csr": "csc", "csc": "csr"}
@@ -273,9 +273,13 @@ class FmtCtx:
             par = f.pm[cur]
             if isinstance(par, (ast.If, ast.IfExp)) and cur is not par.test:
                 a = _fmt_atom(par.test)
+                in_body = (cur is par.body) if isinstance(par, ast.IfExp) else any(cur is x for x in par.body)
                 if a:
-                    in_body = (cur is par.body) if isinstance(par, ast.IfExp) else any(cur is x for x in par.body)
                     out.append(a if in_body else (a[0], a[1], not a[2]))
+                elif in_body and isinstance(par.test, ast.BoolOp) and isinstance(par.test.op, ast.And):
+                    out += [b for b in map(_fmt_atom, par.test.values) if b]  # every conjunct holds in the body
+            if isinstance(par, ast.BoolOp) and isinstance(par.op, ast.And):
+                out += [b for v_ in par.values if v_ is not cur for b in [_fmt_atom(v_)] if b]  # `fmt == "csc" and <this>`
             # terminal guards earlier in the same block
             for fld in ("body", "orelse", "finalbody"):
                 blk = getattr(par, fld, None)
@@ -791,7 +795,7 @@ class _LinExec:
 
     def __init__(self, f: View, symbols: dict[str, str]):
         self.f = f
-        self.env: dict[str, object] = {p: ("lin", {s: 1}) for p, s in symbols.items()}
+        self.env: dict[str, object] = {p: ("lin", {s: 1}, False) for p, s in symbols.items()}
         self.masks: dict[str, tuple] = {}
         self.stores: list = []
         self.returns: list = []
@@ -802,11 +806,12 @@ class _LinExec:
             return self.env.get(e.id)
         c = _const_int(e)
         if c is not None:
-            return ("lin", {"": c} if c else {})
+            return ("lin", {"": c} if c else {}, None)
         if isinstance(e, ast.BinOp) and isinstance(e.op, (ast.Add, ast.Sub)):
             a, b = self.ev(e.left), self.ev(e.right)
             if a and b and a[0] == b[0] == "lin":
-                return ("lin", _lin_add(a[1], b[1], 1 if isinstance(e.op, ast.Add) else -1))
+                cast = a[2] if b[2] is None else (b[2] if a[2] is None else (a[2] and b[2]))
+                return ("lin", _lin_add(a[1], b[1], 1 if isinstance(e.op, ast.Add) else -1), cast)
             return None
         if isinstance(e, ast.BinOp) and isinstance(e.op, ast.Mult):
             for x, y in ((e.left, e.right), (e.right, e.left)):
@@ -815,14 +820,21 @@ class _LinExec:
                 cy = _const_int(y)
                 vx = self.ev(x)
                 if cy is not None and vx and vx[0] == "lin":
-                    return ("lin", {k: v * cy for k, v in vx[1].items() if v * cy})
+                    return ("lin", {k: v * cy for k, v in vx[1].items() if v * cy}, vx[2])
             return None
         if isinstance(e, ast.Call):
             nm = call_name(e)
             if isinstance(e.func, ast.Attribute) and nm in self.PASS_METHODS:
-                return self.ev(e.func.value)
+                v = self.ev(e.func.value)
+                if nm == "astype" and e.args and v and v[0] == "lin":
+                    return self._cast(v, e.args[0])
+                return v
             if nm in self.PASS_FUNCS and e.args:
-                return self.ev(e.args[0])
+                v = self.ev(e.args[0])
+                dt = kwarg(e, "dtype")
+                if dt is not None and v and v[0] == "lin":
+                    return self._cast(v, dt)
+                return v
             if nm == "sum":
                 x = e.args[0] if e.args else (e.func.value if isinstance(e.func, ast.Attribute) else None)
                 v = self.ev(x) if x is not None else None
@@ -839,27 +851,36 @@ class _LinExec:
             if not v or v[0] != "lin":
                 return None
             if isinstance(e.slice, ast.Name) and e.slice.id in self.masks:
-                return ("lin", _lin_rename(v[1], "|" + e.slice.id))
+                return ("lin", _lin_rename(v[1], "|" + e.slice.id), v[2])
             if isinstance(e.slice, ast.Compare):
                 mv = self.ev(e.slice)
                 if mv and mv[0] == "mask":
                     key = "<" + u(e.slice) + ">"
                     self.masks[key] = mv
-                    return ("lin", _lin_rename(v[1], "|" + key))
+                    return ("lin", _lin_rename(v[1], "|" + key), v[2])
                 return None
             k = _slice_kind(e.slice)
             if k in ("head", "tail"):
-                return ("lin", _lin_rename(v[1], "@" + k))
+                return ("lin", _lin_rename(v[1], "@" + k), v[2])
             if k == "full":
                 return v
             if _const_int(e.slice) == 0:
-                return ("lin", _lin_rename(v[1], "@first"))
+                return ("lin", _lin_rename(v[1], "@first"), v[2])
             return None
         if isinstance(e, ast.Compare) and len(e.ops) == 1 and type(e.ops[0]) in _CMP:
             a, b = self.ev(e.left), self.ev(e.comparators[0])
             if a and b and a[0] == b[0] == "lin":
                 return ("mask", _lin_add(a[1], b[1], -1), type(e.ops[0]))
         return None
+
+    SIGNED = {"int", "np.int64", "np.int32", "np.intp", "np.int_", "'int'", "'int64'", "'int32'", "np.longlong", "numpy.int64", "numpy.int32"}
+
+    def _cast(self, v, dtype: ast.expr):
+        """conversion to a signed integer type of a value in which no two arrays have been combined yet"""
+        mixed = len({k.split("|")[0].split("@")[0] for k in v[1] if k}) > 1
+        if u(dtype) in self.SIGNED and not mixed:
+            return ("lin", v[1], True)
+        return v
 
     def run(self, body: list) -> None:
         for s in body:
@@ -1020,6 +1041,11 @@ def rule_expand_index_pointers(ctx: Ctx, amod) -> None:
     jv = sj[4]
     if not (jv and jv[0] == "lin"):
         raise f.und("jump value is not a linear form of the bounds", sj[0])
+    ctx.check("R4", jv[2] is True, amod, q, sj[0],
+              "the jump lo[k+1] - hi[k] is negative whenever the next interval starts below the end of the previous one (rows sliced in "
+              "arbitrary order): both bounds must have been converted to a signed integer type BEFORE they are subtracted, otherwise "
+              "unsigned index arrays wrap around (lo=[5,1], hi=[7,3] as uint8)",
+              construct="jump computed in a signed integer type", facts={"cast_before_subtraction": jv[2]})
     # required: jump + (last value of interval k) == lo[k+1], last value = lo[k] + length[k] - 1
     last_k = _lin_add(_lin_add({f"LO|{m}@head": 1}, _lin_rename(num, "@head")), {"": -1})
     resid = _lin_add(_lin_add(jv[1], last_k), {f"LO|{m}@tail": 1}, -1)
@@ -1632,6 +1658,34 @@ def rule_stack_diag_shape(ctx: Ctx, mod) -> None:
                       construct="stack_diag: shape of the result")
 
 
+def rule_stack_mat_shortcut(ctx: Ctx, mod) -> None:
+    q = "stack_mat"
+    f = View(mod, q)
+    if f.params[:2] != ["A", "B"]:
+        raise AnchorError(f"{MO}:{q}: signature changed ({f.params})")
+    grows = [s for s in f.stmts if isinstance(s, ast.Assign) and len(s.targets) == 1 and isinstance(s.targets[0], ast.Attribute)
+             and s.targets[0].attr in ("_shape", "shape", "indptr")]
+    if not grows:
+        raise AnchorError(f"{MO}:{q}: no update of A.indptr / A._shape found")
+    early = [s for s in f.stmts if isinstance(s, ast.Return) and isinstance(f.pm.get(s), ast.If) and f.before(s, grows[0])]
+    for r in early:
+        iff = f.pm[r]
+        t = f.canon2(iff.test, iff)
+        txt = u(t)
+        lines_empty = ("B.indptr" in txt and any(k in txt for k in ("size", "len(", "shape"))) or \
+            any(k in txt for k in ("B.shape[0] == 0", "B.shape[1] == 0", "B._shape[0] == 0", "B._shape[1] == 0"))
+        entries_empty = any(k in txt for k in ("B.nnz", "B.data", "B.indices", "B.getnnz", "B.count_nonzero"))
+        if not lines_empty and not entries_empty:
+            raise f.und("early return of stack_mat under a test that is not recognised", iff)
+        ctx.check("R10", lines_empty and not entries_empty, mod, q, iff,
+                  f"returning without touching A is right only if B has no LINES; `{txt}` is also true for a B whose lines are all "
+                  f"empty, and those lines (rows of zeros for csr) must still be appended: indptr and shape stay too short "
+                  f"(A 2x3 csr, B = csr((2,3)): result stays 2x3, sps.vstack gives 4x3)",
+                  construct="stack_mat: nothing appended only if B has no lines", facts={"guard": txt})
+    if not early:
+        ctx.check("R10", True, mod, q, f.fn, "", construct="stack_mat: nothing appended only if B has no lines", desc="no shortcut")
+
+
 # =====================================================================================
 #  driver
 # =====================================================================================
@@ -1680,6 +1734,7 @@ def run(ctx: Ctx) -> None:
     rule_merge_order(ctx, mod)
     rule_kron_convention(ctx, mod, amod)
     rule_stack_diag_shape(ctx, mod)
+    rule_stack_mat_shortcut(ctx, mod)
     ctx.sample({"format_axis_table": FMT})
     if ctx.tier == "thorough":
         _sweep_windows(ctx)
@@ -1726,6 +1781,7 @@ MUTANTS = [
     _m("eip-hi-not-made-inclusive", "hi = (hi[pos_diff] - 1).astype(int)", "hi = (hi[pos_diff]).astype(int)", "R4", file=AO),
     _m("eip-jump-from-own-upper-bound", "lo[1:] - hi[0:-1]\n", "lo[1:] - hi[1:]\n", "R4", file=AO),
     _m("eip-lo-unfiltered", "lo = lo[pos_diff].astype(int)", "lo = lo.astype(int)", "R4", file=AO),
+    _m("seed-eip-cast-after-subtraction", "    lo = lo[pos_diff].astype(int)\n", "    lo = lo[pos_diff]\n", "R4", file=AO),
     _m("eip-jump-positions-all-lengths", "x[np.cumsum(num_elements_in_interval[0:-1])]", "x[np.cumsum(num_elements_in_interval[1:])]", "R4", file=AO),
     # ---- R5 rldecode: values restricted like the counts (reverted fix 9e1228e1d)
     _m("revert-fix-rldecode-unrestricted-values", "    B = A[r][np.cumsum(j)]\n", "    B = A[np.cumsum(j)]\n", "R5", control=True),
@@ -1738,6 +1794,7 @@ MUTANTS = [
     _m("rlencode-all-components-must-differ", "i = np.any(comp, axis=0)", "i = np.all(comp, axis=0)", "R6"),
     _m("rlencode-ends-shifted", "i = np.hstack((np.argwhere(i).ravel(), (A.shape[1] - 1)))", "i = np.hstack((np.argwhere(i).ravel() + 1, (A.shape[1] - 1)))", "R6"),
     # ---- R10
+    _m("seed-stack-mat-shortcut-on-no-entries", "    if B.indptr.size == 1:\n        return\n", "    if B.nnz == 0:\n        return\n", "R10"),
     _m("stack-diag-shape-only-rows-grow", "C._shape = (A._shape[0] + B._shape[0], A._shape[1] + B._shape[1])",
        "C._shape = (A._shape[0] + B._shape[0], A._shape[1] + B._shape[0])", "R10"),
     # ---- R9 Kronecker numbering
